@@ -1998,6 +1998,13 @@ func (db *DB) newSyncExecutor(ctx context.Context) (*syncExecutor, error) {
 	db.mu.Lock()
 	defer db.mu.Unlock()
 
+	// A sync, checkpoint or CRC request that was waiting for the executor
+	// while Close() ran must not re-initialise the closed DB: it would reopen
+	// the database and take the read lock again with nothing left to release it.
+	if !db.opened {
+		return nil, fmt.Errorf("%w: %s", ErrDatabaseNotOpen, db.path)
+	}
+
 	if err := db.init(ctx); err != nil {
 		return nil, err
 	} else if db.db == nil {
